@@ -119,13 +119,13 @@ def r5_endian(ck, F):
     for f, fn, cv in inv:
         if "_ne_bytes" in cv or "NativeEndian" in cv or " NE " in cv:
             bad.append((f, fn, cv, "native endian"))
-        elif f.endswith("metadata.rs"):
+        elif f == "metadata":
             if " LE " not in cv:
                 bad.append((f, fn, cv, "trailer must be little endian"))
-        elif f.endswith(("writer.rs", "block_writer.rs", "block.rs", "reader_cursor.rs")):
+        elif f in ("writer", "block_writer", "block", "reader::reader_cursor"):
             if " BE " not in cv:
                 bad.append((f, fn, cv, "blocks / index entries must be big endian"))
-    ck.ob(R, "endianness-per-file", not bad, f"{len(inv)} integer<->bytes conversions: trailer little-endian, everything else big-endian" + (f" — deviations: {bad}" if bad else ""), config=F.config, conversions=len(inv))
+    ck.ob(R, "endianness-per-module", not bad, f"{len(inv)} integer<->bytes conversions: trailer little-endian, everything else big-endian" + (f" — deviations: {bad}" if bad else ""), config=F.config, conversions=len(inv))
     ck.floor(R, "integer<->bytes conversions inventoried", len(inv), 18, F.config)
 
 
